@@ -211,7 +211,7 @@ def run(ctx):
                  "the reference the ring is unwrapped around derives from %s on its %d path(s) (must be longitudes only)" % (sorted(set(kinds)), len(kinds)), where(facts.fns[NORM]["span"]))
     # B5: each ring point is pulled towards the reference individually: every +-180 comparison tests that point's own longitude
     if NORM in facts.fns:
-        per_point, not_per_point = 0, []
+        per_point, not_per_point, not_difference = 0, [], []
         for p_, f_ in sorted(facts.fns.items()):
             if not p_.startswith(NORM) or f_["kind"] not in ("Fn", "Closure"):
                 continue
@@ -227,26 +227,44 @@ def run(ctx):
                 if not (d[0] == "bin" and d[1] in ("Gt", "Lt", "Ge", "Le") and _cf(d[3]) is not None and abs(abs(_cf(d[3])) - 180.0) < 1e-9):
                     continue
                 # the tested variable, through its own updates
-                own = False
-                seen_, st_ = set(), [d[2]]
-                while st_:
-                    y = st_.pop()
-                    for x in walk(y):
-                        if x[0] == "call" and isinstance(x[1], str) and x[1].endswith("::longitude") and x[2]:
-                            a = peel(x[2][0])
-                            if its is not None and a == ("param", 2):
-                                own = True
-                            if any(l.item is not None and strip_site(peel(l.item)) == strip_site(a) for l in lpsx):
-                                own = True
-                        if x[0] == "phi" and x[1] == fx.path and x not in seen_:
-                            seen_.add(x)
-                            st_.extend(fx.phi_operands(x).values())
+                def own_of(term):
+                    seen_, st_ = set(), [term]
+                    while st_:
+                        y = st_.pop()
+                        for x in walk(y):
+                            if x[0] == "call" and isinstance(x[1], str) and x[1].endswith("::longitude") and x[2]:
+                                a = peel(x[2][0])
+                                if its is not None and a == ("param", 2):
+                                    return True
+                                if any(l.item is not None and strip_site(peel(l.item)) == strip_site(a) for l in lpsx):
+                                    return True
+                            if x[0] == "phi" and x[1] == fx.path and x not in seen_:
+                                seen_.add(x)
+                                st_.extend(fx.phi_operands(x).values())
+                    return False
+                own = own_of(d[2])
                 if own:
                     per_point += 1
+                    # what is compared with +-180 is the signed distance of the point from the reference: the point's
+                    # longitude and the reference enter it with opposite signs (`lon - ref`, `-(ref - lon)`, ..)
+                    def leaves(t, sg):
+                        if t[0] == "bin" and t[1] in ("Add", "Sub"):
+                            return leaves(t[2], sg) + leaves(t[3], sg if t[1] == "Add" else -sg)
+                        if t[0] == "un" and t[1] == "Neg":
+                            return leaves(t[2], -sg)
+                        return [(sg, t)]
+                    lv = leaves(d[2], 1)
+                    mine = [sg for sg, l in lv if own_of(l)]
+                    refs_ = [sg for sg, l in lv if not own_of(l) and _cf(l) is None]
+                    if len(lv) > 1 and not (len(mine) == 1 and refs_ and all(sg == -mine[0] for sg in refs_)):
+                        not_difference.append(fmt(d)[:70])
                 else:
                     not_per_point.append(fmt(d)[:60])
         run.inst("C11.B5", "wrap-per-point", per_point >= 2 and not not_per_point,
                  "%d comparison(s) with +-180 test the longitude of the point being mapped%s" % (per_point, "" if not not_per_point else "; these do not: %s" % not_per_point[:2]),
+                 where(facts.fns[NORM]["span"]))
+        run.inst("C11.B5", "wrap-tests-distance-from-reference", not not_difference,
+                 "in every such comparison the point's longitude and the reference enter with opposite signs%s" % ("" if not not_difference else "; not in: %s" % not_difference[:2]),
                  where(facts.fns[NORM]["span"]))
     # B6: the ring is split from the shape's exact vertex list, not from the padded fixed-size accessor
     GV = "a5::geometry::pentagon::PentagonShape::get_vertices"
